@@ -373,7 +373,7 @@ class E2E:
 
 def e2e_value(rng):
     """a header value as squid will see it: no CR/LF/NUL, no blank at either end"""
-    v = rand_value(rng, "quick").replace(b"\r", b"").replace(b"\n", b"").replace(b"\0", b"")[:1500].strip(b" \t")
+    v = rand_value(rng, "quick").replace(b"\r", b"").replace(b"\n", b"").replace(b"\0", b"")[:1500].strip(b" \t\x0b\x0c")      # squid trims isspace() bytes at both ends of a field value
     return v
 
 
